@@ -23,6 +23,13 @@ spec -> code : StatsMC.tla enumerates every case of the bounded space (data x we
                a layout (tiled / blocks / shuffled); the arrays handed to the code are the K replicas (1 .. 18000 elements in
                the quick tier, 2^24.. in the thorough tier) with the weights additionally in float16, and the result is judged
                on the pattern through the replication law Stats!SScaleLaw, which TLC checks on every pattern.
+               Round 4 adds SCALE COVARIANCE of interpolation (every table is also exported rescaled: abscissae - nodes and query
+               points - by 2^sx, table values by 2^sv, exponents -40..40 from two more factors of the design, floating-point
+               representations; what comes back is divided by 2^sv and judged on the unscaled table through
+               Stats!SInterpScaleLaw, which TLC checks on every table) and TICK lattices (family "tk": clipping inputs whose
+               lattice unit is the spacing of the floating-point numbers at their offset - binary64 integers above 2^52,
+               stamps of 2^30 s with 2^-22 s ticks, float32 values above 2^23 - judged by Stats!SClipInSuccG: the computed
+               mean is a lattice point, the deviation is taken about it; the mechanism is run by TLC as TkStep / TkRefines).
 code -> spec : what the real code returned - for sigma_clip the whole iteration, re-observed
                through the public call with niter = 0..k - is written as ndjson and judged by
                StatsTrace.tla (SFailing of Stats.tla); larger seeded cases go the same way.
@@ -78,6 +85,11 @@ LATNUM = {
     "span-s32": _lat(5 * 2 ** 27, -3, 1, 3 * 2 ** 27, -3, 7 * 2 ** 25, 6, 9),
     "span-u32": _lat(5 * 2 ** 27, 0, 1, 3 * 2 ** 27, 2, 7 * 2 ** 26, 6, 9),
 }
+# TICK lattices (round 4; StatsMC!TickSeq): the lattice unit IS the spacing of the floating-point numbers at the offset, in
+# binary64 (integers above 2^52; stamps of about 2^30 s with ticks of 2^-22 s) or in float32 (values above 2^23): data that
+# agree to the last bit except for a few ticks.  Clipping cases only, judged by Stats!SClipInSuccG.
+TICKNUM = {"tick-int53": _lat(1, 2 ** 52 + 64, 1), "tick-stamp": _lat(Fr(1, 2 ** 22), 2 ** 52 + 64, 1), "tick-f4": _lat(1, 2 ** 23 + 64, 1)}
+TICKTOL = 32              # the computed mean of <= 64 such values is a lattice point within 32 ulp of the exact mean
 CKMIN = -4                # smallest matrix entry used
 WMAX = 32                 # largest total weight
 BIGOFF = 10 ** 8
@@ -109,7 +121,7 @@ BOUNDS = {
                      CovMaxN=3, CovDiag={1, 2, 4, 9}, CovOffN=6, CovShift=3, DefMaxW=12,
                      ScMaxLen=3, ScVals={0, 1, 3, 4}, ScWts={0, 1, 2, 8}, ScLawK=3, ScKExtra={8191, 8192, 21845, 65536, 65537}, ScHuge=True),
 }
-INVARIANTS = ["DefsAgree", "MomentsSane", "MedSafe", "MedRefines", "ClipRefines", "ClipNonEmpty", "ClipStopsOK",
+INVARIANTS = ["TkRefines", "InterpScaleLaw", "ScaleExpsOK", "DefsAgree", "MomentsSane", "MedSafe", "MedRefines", "ClipRefines", "ClipNonEmpty", "ClipStopsOK",
               "ClipStatsDefined", "InterpRefines", "CovSane", "DesignCovers", "RepAdmissible", "ScaleLaw", "PrintCovers"]
 # quantify over SUBSET x SUBSET of the positions in every clipping state: checked in a run of their own on a small scope
 CLIP_THEOREMS = ["ClipPredsAgree", "ClipTolSound"]
@@ -117,7 +129,8 @@ CLIP_THEOREM_BOUNDS = {"quick": dict(ClipMaxLen=3, ClipMaxLenW=3, ClipVals={0, 1
                        "thorough": dict(ClipMaxLen=4, ClipMaxLenW=3, ClipVals={0, 1, 2, 3, 6}, ClipWts={1, 8}, NSigIdx={1, 2, 4})}
 ACTIONS = ["ChooseX1", "ChooseW1", "ChooseMu", "MedStart", "MedStep", "MedDone", "ChooseX2", "ChooseW2",
            "ChooseClipX", "ChooseClipW", "ClipStep", "ClipFinish", "ChooseNodes", "ChooseTabV", "ChooseCovDiag", "ChooseCovOff",
-           "ChooseRpWm", "ChooseRpCl", "ChooseRpIp", "ChooseRpCv", "ChooseRpPrWm", "ChooseRpPrCl", "ChooseScX", "ChooseScW", "ChooseScRp"]
+           "ChooseRpWm", "ChooseRpCl", "ChooseRpIp", "ChooseRpCv", "ChooseRpPrWm", "ChooseRpPrCl", "ChooseScX", "ChooseScW", "ChooseScRp",
+           "ChooseTkX", "ChooseTkW", "TkStep", "TkFinish"]
 
 
 def _su():
@@ -154,6 +167,21 @@ def check_tables(opts):
         raise MachineryError("lattice / representation names of StatsMC.tla and the adapter differ")
     if sorted(opts["lays"]) != sorted(LAYOUTS) or len(opts["prs"]) != 48:
         raise MachineryError("layout names / printing options of StatsMC.tla and the adapter differ")
+    if sorted(t["name"] for t in opts["ticks"]) != sorted(TICKNUM) or Fr(*opts["ticktol"]) != TICKTOL:
+        raise MachineryError("tick lattices of StatsMC.tla and the adapter differ")
+    for t in opts["ticks"]:
+        num, f4 = TICKNUM[t["name"]], t["name"] == "tick-f4"
+        if set(t["reps"]) - set(KIND) or (f4 and set(t["reps"]) != {"f4"}) or (not f4 and "f4" in t["reps"]):
+            raise MachineryError("tick lattice %s: representations" % t["name"])
+        if any(KIND[r] in ("int", "uint") for r in t["reps"]) and num["unit"] != 1:
+            raise MachineryError("tick lattice %s: integer representation on a fractional lattice" % t["name"])
+        for k in range(-TICKTOL - 2, num["kmax"] + TICKTOL + 3):
+            v = (k + num["off"]) * num["unit"]
+            fv = np.float32(float(v)) if f4 else np.float64(float(v))
+            if Fr(float(fv)) != v or Fr(float(np.spacing(fv))) != num["unit"]:
+                raise MachineryError("tick lattice %s: %s is not a floating-point number with spacing %s" % (t["name"], v, num["unit"]))
+        if (RELTOL4 if f4 else RELTOL) * (num["off"] + num["kmax"]) > TICKTOL:
+            raise MachineryError("tick lattice %s: tolerance below 16 ulp" % t["name"])
     tolbig, tolf4 = Fr(*opts["tolbig"]), Fr(*opts["tolf4"])
     for l in opts["lats"]:
         num = LATNUM[l["name"]]
@@ -186,7 +214,7 @@ def check_tables(opts):
 
 def lat(name, abscissa=False):
     """the placement of data / values (default) or of table nodes and query points"""
-    l = LATNUM[name]
+    l = LATNUM[name] if name in LATNUM else TICKNUM[name]
     return dict(unit=l["xunit"] if abscissa else l["unit"], off=l["xoff"] if abscissa else l["off"], wunit=l["wunit"],
                 cunit=l["cunit"], big=abs(l["off"]) >= BIGOFF, kmax=l["kmax"], ckmax=l["ckmax"])
 
@@ -505,6 +533,10 @@ def _clip_out(res, c, P):
 def check_tol(c, x, L):
     """the clipping tolerance the exported case carries must cover 16 ulp of this concretisation's operand scale"""
     f4 = c["rep"]["x"] == "f4"
+    if c.get("grid") and (c["lat"] not in TICKNUM or Fr(*c["tol"]) != TICKTOL or (c["rep"]["x"] == "f4") != (c["lat"] == "tick-f4")):
+        raise MachineryError("tick case on a lattice that is not a tick lattice")
+    if c["lat"] in TICKNUM and not c.get("grid"):
+        raise MachineryError("tick lattice without the grid judgement")
     if L["big"] or f4:
         S = max(abs(v + L["off"]) for v in x)
         if (RELTOL4 if f4 else RELTOL) * S > Fr(*c["tol"]):
@@ -573,9 +605,19 @@ def ex_interp(c, ps):
     for u in us_abs:
         if not -2 <= u <= L["kmax"] + 2:
             raise MachineryError("query point outside the range the lattice was verified for")
-    xs = cdata(c["xs"], L, c["rep"]["x"])
-    vs = cdata(c["vs"], LV, c["rep"]["v"])
-    us = mk([(u + L["off"]) * L["unit"] for u in us_abs], c["rep"]["u"])
+    # SCALE COVARIANCE (round 4): abscissae rescaled by 2^sx, table values by 2^sv (exact: powers of two); what comes back is
+    # divided by 2^sv and judged on the unscaled table (Stats!SInterpScaleLaw).  Every operation of a scale-covariant
+    # evaluation commutes exactly with a power of two (no under- / overflow: |exponents| <= 40, 20 with float32), so the
+    # tolerance "to rounding" of the unscaled case applies unchanged.
+    sx, sv = int(c.get("sx", 0)), int(c.get("sv", 0))
+    if (sx or sv) and (any(KIND[r] in ("int", "uint") for r in c["rep"].values()) or max(abs(sx), abs(sv)) > (20 if "f4" in c["rep"].values() else 40)):
+        raise MachineryError("rescaled interpolation case with an integer representation / exponent out of range")
+    fx, fv = Fr(2) ** sx, Fr(2) ** sv
+    if max(c["xs"]) > L["kmax"] or max(c["vs"]) > LV["kmax"] or min(c["xs"] + c["vs"]) < 0:
+        raise MachineryError("abstract datum outside the range the lattice was verified for")
+    xs = mk([(Fr(v) + L["off"]) * L["unit"] * fx for v in c["xs"]], c["rep"]["x"])
+    vs = mk([(Fr(v) + LV["off"]) * LV["unit"] * fv for v in c["vs"]], c["rep"]["v"])
+    us = mk([(u + L["off"]) * L["unit"] * fx for u in us_abs], c["rep"]["u"])
     fr = Frame(xs, vs, us)
     dxs = [b - a for a, b in zip(c["xs"], c["xs"][1:])]
     span = max(us_abs + [Fr(c["xs"][-1])]) - min(us_abs + [Fr(c["xs"][0])])
@@ -591,12 +633,12 @@ def ex_interp(c, ps):
         D = 2 * max(dxs)
 
         def proj(v):
-            return lreal(v, S, D, cap, LV["unit"], off=LV["off"], reltol=RELTOL4 if f4 else RELTOL)
+            return lreal(v, S, D, cap, LV["unit"] * fv, off=LV["off"], reltol=RELTOL4 if f4 else RELTOL)
     else:
         sc = max([abs(v + LV["off"]) for v in c["vs"]] + [1]) * (1 + 2 * span / min(dxs))
 
         def proj(v):
-            return real(v, sc, div=LV["unit"], off=LV["off"])
+            return real(v, sc, div=LV["unit"] * fv, off=LV["off"])
     try:
         vec_out = [float(v) for v in call(su.interplin, vs, xs, us)]
         one_out = [float(np.atleast_1d(call(su.interplin, vs, xs, us[i]))[0]) for i in range(len(us))]
@@ -757,15 +799,15 @@ def jobs_of(case, opts):
                 ("gstats", dict(how, x=x, w=w, hasw=True, nsn=1, nsd=1, tol=[0, 1], pr=case["pr"]), GS_MODES),
                 ("wmedian", dict(how, x=x[0], w=w[0]), [{"v": 1}])]
     if op == "cl":
-        c = {kk: case[kk] for kk in ("x", "w", "hasw", "nsn", "nsd", "rep", "lat", "tol", "pr")}
+        c = {kk: case[kk] for kk in ("x", "w", "hasw", "nsn", "nsd", "rep", "lat", "tol", "pr", "grid") if kk in case}
         nit = case["niter"]
         out = [("clip", c, [{"niter": it} for it in sorted({1, nit})])]
-        if len(case["x"]) <= GSTATS_CLIP_MAXLEN:
+        if len(case["x"]) <= GSTATS_CLIP_MAXLEN and not case.get("grid"):
             # get_stats reports no subset: the spec enumerates every subset the clipping may end on (3^n at worst)
             out.append(("gstats", dict(c, x=[case["x"]], w=[case["w"]]), [{"mode": "clip", "calcerr": True, "niter": nit}]))
         return out
     if op == "ip":
-        return [("interp", {kk: case[kk] for kk in ("xs", "vs", "us", "rep", "lat", "vlat")}, [{"v": 1}])]
+        return [("interp", {kk: case[kk] for kk in ("xs", "vs", "us", "rep", "lat", "vlat", "sx", "sv") if kk in case}, [{"v": 1}])]
     if op == "cv":
         return [("cov", {kk: case[kk] for kk in ("m", "rep", "lat")}, [{"v": 1}])]
     raise MachineryError("unknown exported case %r" % (case,))
@@ -783,6 +825,10 @@ def how_class(op, c):
     feats = set()
     if c.get("K", 1) * (len(flat(c["x"])) if op in ("wmom", "gstats") else len(c.get("x", []))) >= 1000:
         feats.add("scale")
+    if op == "interp" and (c.get("sx") or c.get("sv")):
+        feats.add("rescaled")
+    if c.get("grid"):
+        feats.add("scatter-of-few-ulp")
     pr = c.get("pr")
     if pr and op == "gstats":
         feats |= {f for f, on in (("print_stats", pr["entry"] == "print_stats"), ("doprint", pr["doprint"]),
@@ -896,7 +942,7 @@ def seeded_jobs(rng, n, opts):
     nsigs = opts["nsigs"]
     how = How(opts)
     for _ in range(n):
-        kind = rng.choice(["wm", "wm", "wmNd", "clu", "clu", "clw", "ip", "cv"])
+        kind = rng.choice(["wm", "wm", "wmNd", "clu", "clu", "clw", "ip", "cv", "tk"])
         small = rng.random() < 0.4          # data within 0..6: every lattice (the type-spanning placements too) can hold them
         if kind == "wm":
             ln = rng.randint(5, 12)
@@ -918,6 +964,24 @@ def seeded_jobs(rng, n, opts):
                     col[rng.randrange(ln)] = 1
             h = how.data(rng, max(max(col) for col in x))
             out.extend(jobs_of({"op": "wm", "x": x, "w": w, "rep": h["rep"], "lat": h["lat"], "pr": rng.choice(opts["prs"])}, opts))
+        elif kind == "tk":
+            # stamps that agree to the tick except for a few (one or two ticks off) and up to two gross outliers
+            hasw = rng.random() < 0.25
+            ln = rng.randint(4, 10) if hasw else rng.choice([rng.randint(4, 16), rng.randint(17, 64)])
+            centre = rng.randint(2, 20)
+            x = [centre] * ln
+            for _o in range(rng.choice([0, 1, 1, 1, 2, 3])):
+                x[rng.randrange(ln)] = centre + rng.choice([-2, -1, 1, 1, 2])
+            for _o in range(rng.randint(0, 2)):
+                x[rng.randrange(ln)] = centre + rng.choice([5, 12, 25, 40])
+            w = [rng.choice([1, 1, 2, 4]) for _ in range(ln)] if hasw else [1] * ln
+            while hasw and sum(w) > 16:
+                w[w.index(max(w))] = 1
+            ns = nsigs[rng.randrange(len(nsigs))]
+            t = rng.choice(opts["ticks"])
+            out.extend(jobs_of(dict(op="cl", x=x, w=w, hasw=hasw, nsn=ns[0], nsd=ns[1], niter=rng.choice([3, 4, 6]), grid=True,
+                                    rep={"x": rng.choice(t["reps"]), "w": "f8"}, lat=t["name"], tol=list(opts["ticktol"]),
+                                    pr=rng.choice(opts["prs"])), opts))
         elif kind in ("clu", "clw"):
             hasw = kind == "clw"
             ln = rng.randint(5, 10) if hasw else rng.randint(6, 24)
@@ -936,7 +1000,12 @@ def seeded_jobs(rng, n, opts):
             xs = sorted(rng.sample(range(0, 7 if small else 21), nn))
             vs = [rng.randint(0, 6 if small else 12) for _ in range(nn)]
             us = [rat(Fr(rng.randint(-4, 2 * xs[-1] + 4), 2)) for _ in range(12)] + [[v, 1] for v in xs[:3]]     # half-lattice, 2 beyond either end
-            out.append(("interp", dict(how.table(rng, xs[-1], max(vs)), xs=xs, vs=vs, us=us), [{"v": 1}]))
+            tb = how.table(rng, xs[-1], max(vs))
+            if rng.random() < 0.5:
+                tb["rep"] = {a: ("f8" if KIND[r] in ("int", "uint") else r) for a, r in tb["rep"].items()}
+                half = 2 if "f4" in tb["rep"].values() else 1
+                tb.update(sx=rng.choice([-1, 1]) * rng.randint(1, 40 // half), sv=rng.choice([-1, 1]) * rng.randint(1, 40 // half))
+            out.append(("interp", dict(tb, xs=xs, vs=vs, us=us), [{"v": 1}]))
         else:
             nn = rng.randint(3, 6)
             m = [[0] * nn for _ in range(nn)]
@@ -966,8 +1035,17 @@ def census(recs, cen):
             cen["large_offset:" + r["op"]] = cen.get("large_offset:" + r["op"], 0) + 1
         if any(c.get(k, "").startswith("span") for k in ("lat", "vlat")) and any(KIND[rp] in ("int", "uint") and rp not in ("i8", "u8") for rp in c["rep"].values()):
             cen["type_spanning_integers:" + r["op"]] = cen.get("type_spanning_integers:" + r["op"], 0) + 1
+        if r["op"] == "interp" and c.get("sx"):
+            for key in ("rescaled:interp", "rescaled:interp:x*2^%d" % c["sx"], "rescaled:interp:v*2^%d" % c["sv"]) + (("rescaled:interp:float32",) if "f4" in c["rep"].values() else ()):
+                cen[key] = cen.get(key, 0) + 1
         if has_interval(r):
             cen["interval:" + r["op"]] = cen.get("interval:" + r["op"], 0) + 1
+        if r["op"] == "clip" and c.get("grid"):
+            steps = r["runs"][-1]["o"]["steps"]
+            for key, yes in (("tick:clip:" + c["lat"], True), ("tick:clip:weighted", c["hasw"]),
+                             ("tick:clip:something-clipped", bool(steps) and 0 < len(steps[-1]) < len(c["x"])), ("tick:clip:n>=32", len(c["x"]) >= 32)):
+                if yes:
+                    cen[key] = cen.get(key, 0) + 1
         if r["op"] == "clip" and Fr(*c["tol"]) > 0:
             cen["clip_with_tolerance"] = cen.get("clip_with_tolerance", 0) + 1
         # round 3: large arrays (by weight representation class), printing options really passed
@@ -995,8 +1073,8 @@ def census(recs, cen):
 
 def run(ctx):
     B = BOUNDS[ctx.tier]
-    kinds = {"wm", "wm2", "cl", "ip", "cv", "rp", "sc"}
-    consts = dict(B, Kinds=kinds, MedVariantGE=False, DoExport=False, RepFull=not ctx.quick)
+    kinds = {"wm", "wm2", "cl", "ip", "cv", "rp", "sc", "tk"}
+    consts = dict(B, Kinds=kinds, MedVariantGE=False, TkVariantBounds=False, DoExport=False, RepFull=not ctx.quick)
     # 1. design level: definitions agree, mechanisms refine the property, no overflow - the whole space.
     #    Per-action coverage (vacuity guard) is costly on the large space: in the thorough tier it is taken on the quick
     #    bounds and the large space is explored without it.
@@ -1025,6 +1103,12 @@ def run(ctx):
                   workers=2, allow_violation=True, coverage=False)
     if "MedRefines" not in r1b.violated:
         raise MachineryError("self-test failed: MedRefines not violated by the deviating mechanism")
+    # 1c. non-vacuity of TkRefines: a clipping test against bounds rounded to the floating-point grid must violate it
+    r1c = ctx.tlc("StatsMC.tla", what="self-test: clipping bounds rounded to the grid violate TkRefines",
+                  cfg_text=cfg(constants=dict(consts, Kinds={"tk"}, TkVariantBounds=True), invariants=["TkRefines"]),
+                  workers=2, allow_violation=True, coverage=False)
+    if "TkRefines" not in r1c.violated:
+        raise MachineryError("self-test failed: TkRefines not violated by the deviating mechanism")
     # 2. export every case (spec -> code)
     r2 = ctx.tlc("StatsMC.tla", what="export cases",
                  cfg_text=cfg(constants=dict(consts, DoExport=True), next_="NextExport", constraints=["Export"]),
@@ -1077,6 +1161,8 @@ def run(ctx):
             ["print:get_stats,doprint", "print:get_stats,doprint,nsigma_print", "print:print_stats", "print:print_stats,nsigma",
              "print:verbose:clip", "print:not-silent:clip", "print:verbose:gstats", "print:not-silent:gstats"] +
             ["large_offset:" + op for op in ("wmom", "wmedian", "clip", "interp", "gstats")] +
+            ["tick:clip:" + k for k in list(TICKNUM) + ["weighted", "something-clipped", "n>=32"]] +
+            ["rescaled:interp", "rescaled:interp:float32"] + ["rescaled:interp:%s*2^%d" % (a, e) for a in "xv" for e in opts["exps"]] +
             ["interval:" + op for op in ("wmom", "clip", "interp", "gstats")] + ["clip_with_tolerance"] +
             ["type_spanning_integers:" + op for op in EXEC])
     missing = [k for k in need if not cen.get(k)]
@@ -1096,6 +1182,10 @@ def run(ctx):
                 "pattern of length 1..%d over values %s x weights %s, replicated K times (K from %s by a pairwise design with layout "
                 "tiled / blocks / shuffled, data representation, lattice, weights in float16 for about half), two patterns under every "
                 "K x every weight representation (float16 included)%s - judged on the pattern through Stats!SScaleLaw; "
+                "every interpolation table also RESCALED (abscissae x 2^sx, values x 2^sv, exponents %s by the pairwise design, halved with "
+                "float32) and judged on the unscaled table through Stats!SInterpScaleLaw; TICK lattices %s (unit = floating-point spacing "
+                "at the offset): every clipping input of length <= %d over {0, 1, 6} and of length <= %d over {0, 1} (weighted: length <= %d) "
+                "x nsig x niter as above, representation / lattice by hash, judged by Stats!SClipInSuccG; "
                 "plus %d seeded larger cases with drawn representations / lattices / printing options. A case is distinct by its abstract record "
                 "(op, data, representation, lattice) and counted once; evaluations count the calls made on it (option settings)." %
                 (B["MinLen"], B["MaxLen"], len(B["Vals"]), sorted(B["Wts"]), B["MaxW"], opts["mus"], B["N2Max"], B["ClipMaxLen"],
@@ -1107,6 +1197,7 @@ def run(ctx):
                  "every row of the design" if ctx.quick else "the full product representation x representation x lattice",
                  B["ScMaxLen"], sorted(B["ScVals"]), sorted(B["ScWts"]), opts["scks"],
                  "" if ctx.quick else ", further K %s and two cases of 3 * 2^23 and 2^24 + 4 points with float32 weights" % sorted(B["ScKExtra"]),
+                 opts["exps"], sorted(TICKNUM), B["ClipMaxLen"], B["ClipMaxLen"] + 2, B["ClipMaxLenW"],
                  len(sj)))
     ctx.exhaustive = True
     ctx.note(bounds={k: sorted(v) if isinstance(v, set) else v for k, v in B.items()}, exported_cases=nkinds,
@@ -1125,6 +1216,16 @@ def run(ctx):
         "themselves known only to rounding); when nothing survives a round the current subset (or the empty set) is accepted",
         "weighted sigma_clip / get_stats error: either documented wmom convention accepted; wmom moments with inputmean: about the "
         "supplied or the weighted mean accepted",
+        "interplin, rescaled cases: abscissae (nodes and query points) times 2^sx, table values times 2^sv, |sx|, |sv| <= 40 (<= 20 "
+        "when an argument is float32), floating-point representations only; powers of two keep every lattice value exact and "
+        "commute with every operation of a scale-covariant evaluation, so the tolerance of the unscaled case is applied unchanged "
+        "to the result divided by 2^sv; nearly-regular tables (spacings equal to 1e-5 relative) are not exercised",
+        "sigma clipping on tick lattices (unit = floating-point spacing at the offset; <= 64 points, total weight <= 32): a round is "
+        "accepted if it is what the exact relation yields (ties free) or what |x_i - j| < nsig * sqrt(sum w (x - j)^2 / sum w) yields "
+        "for SOME lattice point j within 32 ulp of the exact mean (ties free) - i.e. the computed mean is a floating-point number, "
+        "differences to it are exact and the deviation is the root mean square about that same computed mean to a relative rounding; "
+        "an implementation whose deviation is NOT taken about its computed mean is outside this reading; returned mean / deviation / "
+        "error are judged to 16 ulp of the offset only (intervals); get_stats with clipping is not run on tick lattices",
         "interplin on large-offset lattices: operand scale of the result = max|v| + max|slope| * (max|x|,|u| + span), offsets included",
         "integer representations: a lattice is used with an integer type only where the type holds every value exactly; on the "
         "type-spanning placements (values about -max..max, unsigned about 0..max of int8/16/32) the data, table values, nodes, "
